@@ -58,7 +58,9 @@ func c15(p *core.Prog, r *core.Report) {
 			if bound == nil {
 				continue
 			}
-			if callResult(bound, "peerHeap.Len") != nil {
+			if all, why := loopSkipsNone(l); !all {
+				how = "the scan over the heap does not run heap-length times (" + why + "): the last eligible peer is never reached, and a one-peer list yields none"
+			} else if callResult(bound, "peerHeap.Len") != nil {
 				ok = true
 			} else {
 				how = "the scan over the heap is bounded by " + desc(bound) + " instead of the heap length: eligible peers behind that many ineligible ones are never reached"
@@ -318,6 +320,60 @@ func c15(p *core.Prog, r *core.Report) {
 		if name == "preferIncomingCalculator" {
 			r.Check(offset, "C15-R4", fname(f), "peers without inbound connections are offset by MaxInt32", p.Pos(f.Pos()), "MaxInt32 + pending", "connected peers without inbound connections are not ranked after those with inbound ones")
 		}
+	}
+	// tried peers are excluded only while an alternative exists: when every
+	// peer was tried (GetNew answers ErrNoNewPeers), Get selects again with an
+	// empty exclusion set and without host avoidance
+	if f := mustFunc(p, r, "", "PeerList", "Get"); f != nil {
+		ok, how := false, "Get has no unrestricted selection on the ErrNoNewPeers arm: once every peer was tried, no peer is returned although the list is not empty"
+		for _, c := range core.CallsIn(f, "PeerList.choosePeer") {
+			a := core.CallArgs(c)
+			if len(a) != 3 || !core.IsNilConst(a[1]) {
+				continue
+			}
+			if b, isB := core.ConstBool(a[2]); !isB || b {
+				continue
+			}
+			for _, cm := range factsAt(c.Block()).cmps {
+				if cm.Op == token.EQL && (loadsGlobal(cm.Y, "ErrNoNewPeers") && resultThrough(p, cm.X, 0, "PeerList.GetNew") || loadsGlobal(cm.X, "ErrNoNewPeers") && resultThrough(p, cm.Y, 0, "PeerList.GetNew")) {
+					ok = true
+				}
+			}
+		}
+		r.Check(ok, "C15-R4", fname(f), "all peers tried -> select again among all of them", p.Pos(f.Pos()), "choosePeer(nil, false) under err == ErrNoNewPeers", how)
+	}
+	// eligibility: a peer is skipped if its host:port was tried, and - while
+	// hosts are avoided - if its host was tried
+	if f := mustFunc(p, r, "", "PeerList", "choosePeer"); f != nil {
+		keys := map[string]bool{}
+		hostGuarded := false
+		scan := func(g *ssa.Function) {
+			core.EachInstr(g, func(i ssa.Instruction) {
+				lk, isLk := i.(*ssa.Lookup)
+				if !isLk {
+					return
+				}
+				if mt, isMap := lk.X.Type().Underlying().(*types.Map); !isMap || !types.Identical(mt.Key(), types.Typ[types.String]) {
+					return
+				}
+				if callResult(lk.Index, "getHost") != nil {
+					keys["host"] = true
+					for _, bf := range factsAt(lk.Block()).bools {
+						if bf.Pol {
+							hostGuarded = true
+						}
+					}
+				} else {
+					keys["host:port"] = true
+				}
+			})
+		}
+		scan(f)
+		for _, af := range f.AnonFuncs {
+			scan(af)
+		}
+		r.Check(keys["host"] && keys["host:port"] && hostGuarded, "C15-R4", fname(f), "eligibility looks up the host:port and, while avoiding hosts, the host", p.Pos(f.Pos()), "prevSelected[hostPort] and prevSelected[getHost(hostPort)] under avoidHost",
+			fmt.Sprintf("the exclusion test does not look up both the peer's host:port and its host (host:port=%v host=%v under avoidHost=%v): peers on an already tried host are not avoided", keys["host:port"], keys["host"], hostGuarded))
 	}
 	if f := mustFunc(p, r, "", "PeerList", "GetNew"); f != nil {
 		ok := false
